@@ -144,7 +144,7 @@ theorem expandOne_total {N : Nat} {g : Gate} (hg : InClass N g) : ∃ a, expandO
   split
   · rename_i hb
     obtain ⟨inB, hs⟩ := splitBasis_strCNOT
-    apply resolve_total (N := N) true (.str .CNOT) [g] hs
+    apply resolve_total (N := N) true cnotBasis [g] hs
     · intro x hx; rw [List.mem_singleton.mp hx]; exact hg.1
     · intro x hx
       rw [List.mem_singleton.mp hx]
@@ -168,7 +168,7 @@ theorem expandOne_names {N : Nat} {g : Gate} (hg : InClass N g) {a : List Gate}
   unfold expandOne at h
   split at h
   · obtain ⟨inB, hsb⟩ := splitBasis_strCNOT
-    have hnames := resolve_names_core true (.str .CNOT) [g] a _ _ inB hsb (by simp) (by decide)
+    have hnames := resolve_names_core true cnotBasis [g] a _ _ inB hsb (by simp) (by decide)
       (by decide) (by decide) (by simpa using hg.2) h
     intro x hx
     have hn := (List.all_eq_true.mp hnames) x hx
